@@ -61,6 +61,40 @@ class SimPhase(ExecutionPhase):
         return OrdFS(real, self._sim_chooser, "sinks:" + self.name)
 
 
+class PhaseProxy:
+    """Stands in front of a real ExecutionPhase -- built however the scenario wants, e.g. by copy() from
+    another phase -- and owns nothing but the iteration order of its sink set."""
+
+    def __init__(self, real, chooser=None):
+        object.__setattr__(self, "_real", real)
+        object.__setattr__(self, "_sim_chooser", chooser)
+
+    @property
+    def depends_on(self):
+        return OrdFS(self._real.depends_on, self._sim_chooser, "sinks:" + self._real.name)
+
+    def __getattr__(self, name):
+        return getattr(object.__getattribute__(self, "_real"), name)
+
+
+def make_phase(tape, name, next_phase, statements, chooser, counter=None):
+    """A real ExecutionPhase behind a PhaseProxy; sometimes made by copy() from a draft phase with other
+    statements whose sinks and id table were already looked at (what user-facing transforms do)."""
+    if tape.chance(0.3, "phase_by_copy"):
+        n = len(statements)
+        k = tape.draw(n + 1, "draft_len")
+        draft = ExecutionPhase(name=name, next_phase=next_phase, statements=list(statements[:k]))
+        if tape.chance(0.7, "draft_used"):
+            draft.depends_on
+            draft.id_to_stmt
+        real = draft.copy(statements=list(statements))
+        if counter is not None:
+            counter("probe:phase_made_by_copy")
+    else:
+        real = ExecutionPhase(name=name, next_phase=next_phase, statements=list(statements))
+    return PhaseProxy(real, chooser)
+
+
 def own_dependency_orders(statements, chooser):
     """Replace every statement's depends_on by an OrdFS (in place)."""
     for st in statements:
